@@ -378,6 +378,35 @@ let p1 (w : string list) : string =
     fs_result mode (res_str r) "-" rp fs st
   | _ -> failwith "p1: bad command"
 
+let c15 (w : string list) : string =
+  let b s = bytes_of_string (unhex s) in
+  match w with
+  | ["clean"; a] | ["fclean"; a] -> hxb (clean (b a))
+  | ["isabs"; a] -> if is_abs (b a) then "1" else "0"
+  | ["dir"; a] -> hxb (dir (b a))
+  | ["base"; a] -> hxb (base (b a))
+  | ["ext"; a] -> hxb (ext (b a))
+  | ["join"; a; c] -> hxb (join2 (b a) (b c))
+  | ["check"; a] -> (match check_filename (b a) with Ok _ -> "ok" | Err _ -> "err" | Panic _ -> "panic")
+  | _ -> failwith "c15: bad command"
+
+(* ---- C20: the par command ---- *)
+let cli (w : string list) : string =
+  match w with
+  | cwd :: view :: nargs :: rest ->
+    let cwd = bytes_of_string (unhex cwd) in
+    let n = int_of_string nargs in
+    let args = List.filteri (fun i _ -> i < n) rest and rest = List.filteri (fun i _ -> i >= n) rest in
+    let args = List.map (fun a -> bytes_of_string (unhex a)) args in
+    let (fs, sched, _) = parse_fs rest in
+    let to_view p = if view = "rel" then rel_path cwd p else p in
+    let of_view p = if is_abs p then clean p else clean (cwd @ (n_of_int 47 :: p)) in
+    let fsv = List.map (fun (p, d) -> (to_view p, d)) fs in
+    let (code, st) = cli_run md5_fn cwd args (io_init fsv sched) in
+    let fin = List.map (fun (p, d) -> (of_view p, d)) st.io_fs in
+    Printf.sprintf "exit=%d changed=%s" (int_of_n code) (changed_str fs fin)
+  | _ -> failwith "cli: bad command"
+
 let dispatch (line : string) : string =
   match String.split_on_char ' ' (String.trim line) with
   | "c08" :: w -> c08 w
@@ -388,6 +417,8 @@ let dispatch (line : string) : string =
   | "c12" :: w -> c12 w
   | "p2" :: w -> p2 w
   | "p1" :: w -> p1 w
+  | "c15" :: w -> c15 w
+  | "cli" :: w -> cli w
   | "c05" :: w -> c05 w
   | _ -> failwith ("bad line: " ^ line)
 
